@@ -6,7 +6,7 @@ import checklib as L
 TRUSTED_BASE = [
     "Coq 8.16.1 kernel (coqc; coqchk in the thorough tier); vm_compute used only in non-vacuity Examples and refutation witnesses; no native_compute",
     "L1 (bytes -> fetch contract, and progress) is proved for every layout with ordered formats whose sizes fit the wire format, every fetch offset >= 0 and legal cut (C02_batch_decode_exact_ordered_partial, C02_progress_ordered_partial, C02_contract_ordered): v2 batches of any codec, plain v0/v1 messages, compressed v0/v1 wrappers, alone or followed by v2; outside these hypotheses (formats not ordered, a cut inside the first batch, connection cut short) the link rests on the differential run below",
-    "hand-written models coq/Model/MsgSetReader.v (message_reader.go, read.go, discard.go, batch.go) and coq/Model/ReaderModel.v (reader.go run/initialize/read, FetchMessage, SetOffset; conn.go Seek/ReadBatchWith), tied by the differential run of harness/cmd/c02 (real code, build tag verif) against the OCaml extraction (ExtrOcamlBasic only)",
+    "hand-written models coq/Model/MsgSetReader.v (message_reader.go, read.go, discard.go, batch.go) and coq/Model/ReaderModel.v (reader.go run/initialize/read, FetchMessage, SetOffset; conn.go Seek/ReadBatchWith), tied by the differential run of harness/cmd/c02 (real code, build tag verif) against the OCaml extraction (ExtrOcamlBasic only); every byte-level result is compared exactly: delivered messages, class of the last ReadMessage error, Conn.offset after Close, Batch.Close result, whether the library closed the connection (no relaxation for cut compressed data)",
     "coq/Spec/FetchSpec.v: the broker side (record/batch encodings v0/v1/v2, which batches answer a fetch at offset o, legal cut points) transcribed from the Kafka protocol documents; its encoder is compared byte for byte with the Go reference encoder harness/fetchfake/layout.go on every run; fidelity of both to a real broker is trusted",
     "decompression is an oracle (Section variable decomp with the law decomp c (compress c x) = Some x); the differential feeds the model the (compressed, plain) pairs produced by /repo/compress",
     "real time is abstracted: back-off sleeps are skipped, 'the read deadline has passed' is a flag chosen by the environment; the Reader's queue capacity only restricts interleavings and is not modelled",
